@@ -362,7 +362,7 @@ def instance_path(ctx, sm, f, rng, m, kw, klass):
     from vmon.props.c13 import FMT_BY_CMD, required_args
     from vmon.spec import cdb as S
 
-    cname = next((c for c, fm in FMT_BY_CMD.items() if fm == f.name or (c == "Inquiry" and f.name.startswith("inquiry"))), None)
+    cname = "Inquiry" if f.name.startswith("inquiry") else next((c for c, fm in FMT_BY_CMD.items() if fm == f.name), None)
     if cname is None and f.name.startswith("readdiscinformation"):
         cname = "ReadDiscInformation"
     if cname is None and f.name == "readcd":
